@@ -29,7 +29,7 @@ for p in props:
         "engine": "hv",
         "level_claimed": {"category": m.LEVEL, "text": m.EXPLANATION, "design_ref": "DESIGN.md section 4, %s" % pid},
         "level_note": "Trusted base: " + "; ".join(m.TRUSTED) + ". Assumptions: " + " | ".join(m.ASSUMPTIONS),
-        "technique": getattr(m, "TECHNIQUE", "static analysis of rustc MIR: " + rules),
+        "technique": getattr(m, "TECHNIQUE", "static analysis of rustc MIR: " + rules) + "; audited table of order/extent-changing sequence operations and narrowing casts per function (A-ORD); rule bundles of the properties whose code this one rests on",
     })
 manifest = {
     "version": 1,
